@@ -482,7 +482,7 @@ pub struct CompCase {
 
 pub struct CompCheck;
 
-const N_COMPONENTS: u8 = 36;
+const N_COMPONENTS: u8 = 37;
 
 /// An evaluator that repairs the solutions it is given in place before evaluating them (Lamarckian / repairing
 /// evaluation): whatever it does to an individual, solution and objective value stay together.
@@ -622,7 +622,7 @@ fn comp_oracle(c: &CompCase, cl: &mut u64) -> Result<(), Failure> {
         (s >> 11) as f64 / (1u64 << 53) as f64
     };
     match which {
-        0..=21 | 34 | 35 => {
+        0..=21 | 34 | 35 | 36 => {
             // variant 0: wide domain, Rastrigin, coordinates anywhere in or slightly outside the domain;
             // variants 1-3: narrow domains (bounds of magnitude <= 1, where neighbouring floats are <= EPSILON apart),
             // an objective that depends on every bit of the solution, and most coordinates within two representable
@@ -688,6 +688,18 @@ fn comp_oracle(c: &CompCase, cl: &mut u64) -> Result<(), Failure> {
                 18 => ("RandomReplacement", replacement::RandomReplacement::new::<RealP>(2), vec![pop, mk(2)]),
                 19 => ("RouletteWheel", selection::RouletteWheel::new::<RealP>(3, 0.1), vec![pop]),
                 20 => ("FullyRandom", selection::FullyRandom::new::<RealP>(3), vec![pop]),
+                36 => {
+                    // 32-47 individuals, every third one already (correctly) evaluated, the rest unevaluated, evaluated
+                    // by the parallel evaluator
+                    let mut big = mk(32 + size);
+                    for (k, i) in big.iter_mut().enumerate() {
+                        if k % 3 != 1 {
+                            let s = i.solution().clone();
+                            *i = Individual::new_unevaluated(s);
+                        }
+                    }
+                    ("PopulationEvaluator with the parallel evaluator on a partly evaluated population of >= 32", mahf::components::evaluation::PopulationEvaluator::<mahf::identifier::Global>::new_with(), vec![mk(1), big])
+                }
                 35 => ("PopulationEvaluator with an evaluator that repairs solutions in place", mahf::components::evaluation::PopulationEvaluator::<mahf::identifier::Global>::new_with(), vec![mk(1), pop]),
                 34 => {
                     *cl |= 8;
@@ -699,6 +711,9 @@ fn comp_oracle(c: &CompCase, cl: &mut u64) -> Result<(), Failure> {
             let mut st = state_with(pops, c.seed);
             if which == 35 {
                 st.insert(mahf::state::common::Evaluator::<RealP, mahf::identifier::Global>::new(Repairing));
+            }
+            if which == 36 {
+                st.insert(mahf::state::common::Evaluator::<RealP, mahf::identifier::Global>::new(mahf::problems::Parallel::<RealP>::new()));
             }
             if which == 21 {
                 let mut b = BestIndividual::<RealP>::new();
